@@ -111,7 +111,11 @@ pub fn run(id: &'static str, tier: Tier, seed: u64) -> Option<Evidence> {
             ev.assume("OS schedules are sampled, not enumerated, and are not a function of the seed (the seed fixes workloads and yield patterns only)");
             ev.assume("realistic failure modes of a forbid(unsafe) crate here are lock-discipline edits (try_lock, lock released between metric and terminator, per-thread buffers), which heavy contention exposes quickly");
             let c = StressCampaign { name: "stress-shared-client", sinks: &[StressSink::Spy, StressSink::Spy, StressSink::Unix, StressSink::Udp], judge_errors: false };
-            if driver::run_random(&c, &ev, &ctx, scale(tier.pick(300, 3_000)), 2) && tier == Tier::Thorough {
+            if driver::run_random(&c, &ev, &ctx, scale(tier.pick(300, 3_000)), 2) {
+                let bf = sockets::BlockedFlushCampaign { name: "unix-flush-behind-blocked-emit" };
+                driver::run_random(&bf, &ev, &ctx, scale(tier.pick(6, 60)), 4);
+            }
+            if ev.violations().is_empty() && tier == Tier::Thorough {
                 let b = StressCampaign { name: "stress-blocked-receiver", sinks: &[StressSink::UnixBlockedReceiver], judge_errors: false };
                 driver::run_random(&b, &ev, &ctx, scale(200), 2);
             }
@@ -152,20 +156,20 @@ fn run_sched(id: &'static str, tier: Tier, seed: u64, ctx: &Ctx, sh: u32) -> Evi
     let ex = ExhaustiveCampaign::new(tier.pick(100_000, 20_000));
     let mut progs: Vec<SchedCase> = Vec::new();
     for p in all_programs(2, 2) {
-        progs.push(SchedCase { programs: p, schedule: vec![] });
+        progs.push(SchedCase { programs: p, schedule: vec![], spurious: 0 });
     }
     for p in all_programs(3, 1) {
-        progs.push(SchedCase { programs: p, schedule: vec![] });
+        progs.push(SchedCase { programs: p, schedule: vec![], spurious: 0 });
     }
     if tier == Tier::Thorough {
         for p in all_programs(2, 3) {
             if p.iter().any(|t| t.len() == 3) {
-                progs.push(SchedCase { programs: p, schedule: vec![] });
+                progs.push(SchedCase { programs: p, schedule: vec![], spurious: 0 });
             }
         }
         for p in all_programs(3, 2) {
             if p.iter().any(|t| t.len() == 2) {
-                progs.push(SchedCase { programs: p, schedule: vec![] });
+                progs.push(SchedCase { programs: p, schedule: vec![], spurious: 0 });
             }
         }
     }
@@ -317,7 +321,8 @@ fn socket_seams(id: &str) -> Vec<(SockCampaign, u32, u32)> {
             30_000,
         ),
         (
-            SockCampaign { name: names[1], focus: SRule::Trace(rule), gen: sgen(Some(Transport::Udp), Some(true), faults, 0.0, 30) },
+            // UDP: "faults" = datagrams above the 65507-byte limit (EMSGSIZE), generated for every writer property
+            SockCampaign { name: names[1], focus: SRule::Trace(rule), gen: sgen(Some(Transport::Udp), Some(true), true, 0.0, 30) },
             if faults { 1_000 } else { 4_000 },
             30_000,
         ),
@@ -332,6 +337,7 @@ fn sock_campaigns(id: &str) -> Vec<(SockCampaign, u32, u32)> {
             (SockCampaign { name: "sock-wire-unbuffered", focus: SRule::Wire, gen: sgen(None, Some(false), true, 0.0, 12) }, 6_000, 150_000),
             (SockCampaign { name: "sock-wire-buffered", focus: SRule::Wire, gen: sgen(None, Some(true), false, 0.0, 30) }, 5_000, 150_000),
             (SockCampaign { name: "sock-wire-buffered-unix-faults", focus: SRule::Wire, gen: sgen(Some(Transport::Unix), Some(true), true, 0.0, 30) }, 3_000, 80_000),
+            (SockCampaign { name: "sock-wire-buffered-udp-oversize", focus: SRule::Wire, gen: sgen(Some(Transport::Udp), Some(true), true, 0.0, 20) }, 2_000, 50_000),
         ],
         "C14" => vec![
             (SockCampaign { name: "sock-telemetry", focus: SRule::Telemetry, gen: sgen(None, None, true, 0.3, 25) }, 8_000, 200_000),
@@ -366,6 +372,11 @@ fn run_sockets(id: &'static str, tier: Tier, seed: u64, ctx: &Ctx, sh: u32) -> E
     }
     if id == "C14" {
         driver::run_random(&ConcSockCampaign, &ev, ctx, scale(tier.pick(60, 1_000)), 2);
+    }
+    if id == "C13" && ev.violations().is_empty() {
+        // "send what remains when flushed": a flush behind an emit that is blocked inside the sink
+        let c = sockets::BlockedFlushCampaign { name: "unix-flush-behind-blocked-emit" };
+        driver::run_random(&c, &ev, ctx, scale(tier.pick(8, 100)), 4);
     }
     ev
 }
@@ -430,7 +441,7 @@ fn pattern_enumeration(outcomes: &[StepOut], max_n: usize, caps: &[Option<usize>
                             }
                             ops.push(QOp::Step(*o));
                         }
-                        out.push(QueueCase { cap: *cap, handler, ops });
+                        out.push(QueueCase { cap: *cap, handler, handler_first: n % 2 == 0, ops });
                     }
                 }
             }
@@ -459,13 +470,24 @@ fn run_queue(id: &'static str, tier: Tier, seed: u64, ctx: &Ctx, sh: u32) -> Evi
     match id {
         "C08" => {
             let c = ConcCampaign { name: "queue-deliver-concurrent", focus: QRule::Deliver };
-            driver::run_random(&c, &ev, ctx, scale(tier.pick(100, 1_500)), 4);
+            if driver::run_random(&c, &ev, ctx, scale(tier.pick(100, 1_500)), 4) {
+                let f = crate::queue::concurrent::FirstEmitRace { name: "queue-first-emit-race", focus: QRule::Deliver };
+                driver::run_random(&f, &ev, ctx, scale(tier.pick(40, 600)), 4);
+            }
             ev.set_exhaustive(false);
         }
         "C09" => {
             let c = QueueCampaign::new("queue-endings-enumerated", QRule::Shutdown, QGenKind::Endings);
             let cases = queue::ending_enumeration(tier.pick(3, 4), &all3);
-            driver::run_list(&c, &ev, ctx, cases.into_iter(), sh);
+            if driver::run_list(&c, &ev, ctx, cases.into_iter(), sh) {
+                // concurrent producers on their own clones (first emits released by a barrier), then all
+                // handles dropped: the wrapped sink must still be released (OS schedules sampled)
+                let cc = ConcCampaign { name: "queue-shutdown-concurrent", focus: QRule::Shutdown };
+                if driver::run_random(&cc, &ev, ctx, scale(tier.pick(100, 1_500)), 4) {
+                    let f = crate::queue::concurrent::FirstEmitRace { name: "queue-first-emit-race-shutdown", focus: QRule::Shutdown };
+                    driver::run_random(&f, &ev, ctx, scale(tier.pick(40, 600)), 4);
+                }
+            }
             ev.set_extra("exhaustive_part", serde_json::json!("capacity 1..=3 (thorough: 4) and unbounded x occupancy 0..=capacity x worker holding a metric x {ok,err,panic}^k x handler on/off: enumerated completely; random campaigns are not exhaustive"));
             ev.set_exhaustive(false);
         }
@@ -557,6 +579,22 @@ fn run_writer(id: &'static str, tier: Tier, seed: u64, ctx: &Ctx, sh: u32) -> Ev
             return ev;
         }
     }
+    if id == "C06" {
+        // flush Ok => written, also under concurrency: flush markers on the spy channel and a flush
+        // issued behind an emit that is blocked inside a Unix sink
+        let sc = crate::stress::StressCampaign {
+            name: "stress-flush-markers",
+            sinks: &[crate::stress::StressSink::Spy],
+            judge_errors: false,
+        };
+        if !driver::run_random(&sc, &ev, ctx, scale(tier.pick(40, 600)), 2) {
+            return ev;
+        }
+        let c = sockets::BlockedFlushCampaign { name: "unix-flush-behind-blocked-emit" };
+        if !driver::run_random(&c, &ev, ctx, scale(tier.pick(6, 60)), 4) {
+            return ev;
+        }
+    }
     if id == "C07" {
         // with a channel that never fails, concurrent emits/flushes must not return errors
         let sc = crate::stress::StressCampaign {
@@ -608,9 +646,12 @@ pub fn replay(id: &'static str, campaign: &str, case: &serde_json::Value, tier: 
     try_camp!(QueueCampaign::new("queue-panics-enumerated", QRule::Panics, QGenKind::Endings));
     try_camp!(QueueCampaign::new("queue-handler-enumerated", QRule::Handler, QGenKind::Endings));
     try_camp!(ConcCampaign { name: "queue-deliver-concurrent", focus: QRule::Deliver });
+    try_camp!(ConcCampaign { name: "queue-shutdown-concurrent", focus: QRule::Shutdown });
     try_camp!(ConcCampaign { name: "queue-isolation-concurrent", focus: QRule::Isolation });
     try_camp!(ConcCampaign { name: "queue-counters-sampler", focus: QRule::Counters });
     try_camp!(crate::queue::concurrent::LastSlotRace);
+    try_camp!(crate::queue::concurrent::FirstEmitRace { name: "queue-first-emit-race", focus: QRule::Deliver });
+    try_camp!(crate::queue::concurrent::FirstEmitRace { name: "queue-first-emit-race-shutdown", focus: QRule::Shutdown });
     for pid in ["C05", "C06", "C07", "C19"] {
         for (c, _, _) in socket_seams(pid) {
             try_camp!(c);
@@ -637,6 +678,8 @@ pub fn replay(id: &'static str, campaign: &str, case: &serde_json::Value, tier: 
     try_camp!(crate::stress::StressCampaign { name: "stress-shared-client", sinks: &[crate::stress::StressSink::Spy], judge_errors: false });
     try_camp!(crate::stress::StressCampaign { name: "stress-blocked-receiver", sinks: &[crate::stress::StressSink::UnixBlockedReceiver], judge_errors: false });
     try_camp!(crate::stress::StressCampaign { name: "stress-no-spurious-errors", sinks: &[crate::stress::StressSink::Spy], judge_errors: true });
+    try_camp!(crate::stress::StressCampaign { name: "stress-flush-markers", sinks: &[crate::stress::StressSink::Spy], judge_errors: false });
+    try_camp!(sockets::BlockedFlushCampaign { name: "unix-flush-behind-blocked-emit" });
     #[cfg(cadence_verif)]
     {
         try_camp!(crate::sched::SchedCampaign);
